@@ -14,6 +14,9 @@ pub enum Personality {
     Fresh,
     /// like `LSPFileReader`: every import of a path returns the same UUID
     SameId,
+    /// not a SimReader personality: the incarnation is served by the real `LSPFileReader`
+    /// (lint::ReaderKind::Lsp); no reader fault plan applies
+    Lsp,
 }
 
 #[derive(Clone, Debug, Serialize, Deserialize, PartialEq, Eq)]
@@ -75,6 +78,8 @@ pub struct SimReader {
     imports: usize,
     budget: usize,
     pub budget_exceeded: bool,
+    /// characters handed to the parser (sum over successful imports)
+    pub imported_chars: usize,
     pub history: Vec<ReaderEvent>,
     pub fired: Vec<(usize, FaultKind)>,
     /// (import index, parent path, requested path, resolved path or "", ok?)
@@ -95,7 +100,10 @@ pub struct ImportRecord {
 
 impl SimReader {
     pub fn new(world: &World, personality: Personality, faults: &[ReaderFault]) -> SimReader {
-        let budget = 64 + 8 * world.include_directives();
+        // a file can be included many times over (replayed lines), each time re-meeting its own
+        // directives: allow every occurrence once per occurrence
+        let occ = world.include_occurrences();
+        let budget = 64 + 8 * occ + occ * occ;
         SimReader {
             world: world.clone(),
             personality,
@@ -105,6 +113,7 @@ impl SimReader {
             imports: 0,
             budget,
             budget_exceeded: false,
+            imported_chars: 0,
             history: Vec::new(),
             fired: Vec::new(),
             import_log: Vec::new(),
@@ -163,7 +172,7 @@ impl FileReader for SimReader {
             let already = self.issued.iter().find(|(_, p)| *p == resolved).map(|(u, _)| *u);
             let id = match (self.personality, already) {
                 (Personality::Strict, Some(_)) => return Err(FileReaderError::FileAlreadyRead(resolved)),
-                (Personality::SameId, Some(u)) => u,
+                (Personality::SameId | Personality::Lsp, Some(u)) => u,
                 _ => {
                     let u = Uuid::new_v4();
                     self.issued.push((u, resolved));
@@ -176,6 +185,7 @@ impl FileReader for SimReader {
         match &res {
             Ok((id, text)) => {
                 rec.ok = true;
+                self.imported_chars += text.chars().count();
                 self.note("import_file", path, format!("ok {} bytes id#{}", text.len(), self.issued.iter().position(|(u, _)| u == id).unwrap_or(usize::MAX)));
             }
             Err(e) => {
